@@ -425,9 +425,9 @@ Definition env_names_group (gk : str) (inp : input) : bool :=
   is_some (lookup (env_name (gdest gk)) (i_env inp)).
 
 (* class 3: a config / object gives the group key itself a string or null *)
+Definition textish (v : val) : bool := match v with VStr _ | VNone => true | _ => false end.
 Definition dict_group_text (gk : str) (d : list (str * val)) : bool :=
-  existsb (fun kv => str_eqb (fst kv) (gdest gk)
-                     && match snd kv with VStr _ | VNone => true | _ => false end) (norm_dict d).
+  existsb (fun kv => str_eqb (fst kv) (gdest gk) && textish (snd kv)) (norm_dict d).
 Definition text_group_text (gk : str) (text : str) : bool :=
   match pv text with VDict d => dict_group_text gk d | _ => false end.
 Definition config_group_text (gk : str) (inp : input) : bool :=
@@ -438,12 +438,25 @@ Definition config_group_text (gk : str) (inp : input) : bool :=
      | EString text => text_group_text gk text
      end.
 
-Definition has_dot (s : str) : bool := existsb (fun c => N.eqb c c_dot) s.
+(* the declarations the statement is about: a plain group key (no dot, not starting with '-') and at least one
+   option left by the signature rules *)
+Definition well_formed (gk : str) (fs : list field) : bool :=
+  negb (has_dot gk) && negb (starts_dash gk) && negb (is_nil (norm fs)).
 
-(* the finding class of a case (0 = inside the guard of C07_styles_agree) *)
+(* the finding class of a case (0 = inside the guard of C07_four_styles_agree).  fs is the declared field list;
+   the add_argument styles are declared from norm fs.  Class 6 (declarations outside the statement) is never
+   generated and not a listed finding. *)
 Definition finding_class (gk : str) (fs : list field) (inp : input) : N :=
-  if negb (explicit fs) then 4
-  else if negb (hyphen_safe gk fs) then 5
+  if negb (well_formed gk fs) then 6
+  else if argv_names_group gk inp then 1
+  else if env_names_group gk inp then 2
+  else if config_group_text gk inp then 3
+  else if negb (hyphen_safe gk (norm fs)) then 5
+  else 0.
+
+(* the guard on the repaired tree (inner-hyphen-required fixed): class 5 is gone *)
+Definition finding_class_fixed (gk : str) (fs : list field) (inp : input) : N :=
+  if negb (well_formed gk fs) then 6
   else if argv_names_group gk inp then 1
   else if env_names_group gk inp then 2
   else if config_group_text gk inp then 3
